@@ -26,19 +26,22 @@ Lemma ns_set_raw r ns n v : ns_set r ns n v = set_nss r (raw_set (r_nss r) ns (l
 Proof. reflexivity. Qed.
 
 (* ------------------------------------------------------------------ frame transformers *)
-Record tr := { t_ctx : option (nat * context); t_out : list event; t_nss : nsmap -> nsmap }.
+Record tr := { t_ctx : list context -> list context; t_out : list event; t_nss : nsmap -> nsmap }.
 Definition app (T:tr) (r:rt) : rt :=
-  {| r_ctxs := match t_ctx T with Some (j, c) => list_upd (r_ctxs r) j c | None => r_ctxs r end;
+  {| r_ctxs := t_ctx T (r_ctxs r);
      r_active := r_active r; r_state := r_state r; r_exit_req := r_exit_req r; r_halt_req := r_halt_req r;
      r_run := r_run r; r_err := r_err r; r_msgs := r_msgs r; r_out := r_out r ++ t_out T; r_nss := t_nss T (r_nss r);
      r_clock := r_clock r; r_tick := r_tick r; r_timestamp := r_timestamp r; r_run_ts := r_run_ts r;
      r_max_runtime := r_max_runtime r; r_max_loop := r_max_loop r; r_slice := r_slice r; r_next_id := r_next_id r;
      r_defects := r_defects r |}.
-(* T is invisible to the script at index i with read footprint R and write footprint W *)
-Definition tr_ok (T:tr) (i:nat) (R W:list key) : Prop :=
-  (match t_ctx T with Some (j, _) => j <> i | None => True end) /\
-  (forall nss ns n, kin (ns, n) R = true -> raw_get (t_nss T nss) ns n = raw_get nss ns n) /\
-  (forall nss ns n v, kin (ns, n) W = true -> t_nss T (raw_set nss ns n v) = raw_set (t_nss T nss) ns n v).
+(* T is invisible to the script at index i with read footprint R and write footprint W: it leaves the script's own
+   context alone (and the number of contexts), and the globals the script reads or assigns *)
+Record tr_ok (T:tr) (i:nat) (R W:list key) : Prop := {
+  tk_nth : forall l, nth_error (t_ctx T l) i = nth_error l i;
+  tk_upd : forall l c, t_ctx T (list_upd l i c) = list_upd (t_ctx T l) i c;
+  tk_len : forall l, length (t_ctx T l) = length l;
+  tk_get : forall nss ns n, kin (ns, n) R = true -> raw_get (t_nss T nss) ns n = raw_get nss ns n;
+  tk_set : forall nss ns n v, kin (ns, n) W = true -> t_nss T (raw_set nss ns n v) = raw_set (t_nss T nss) ns n v }.
 
 (* app commutes with the primitive updates *)
 Lemma app_logmsg T r d : logmsg (app T r) d = app T (logmsg r d).
@@ -58,10 +61,10 @@ Proof. reflexivity. Qed.
 Lemma app_defect T r d : defect (app T r) d = defect r d.
 Proof. reflexivity. Qed.
 Lemma app_ns_get T i R W r ns n : tr_ok T i R W -> kin (ns, lower n) R = true -> ns_get (app T r) ns n = ns_get r ns n.
-Proof. intros (_ & G & _) K. rewrite !ns_get_raw. cbn [r_nss app]. auto. Qed.
+Proof. intros OK K. rewrite !ns_get_raw. cbn [r_nss app]. apply (tk_get _ _ _ _ OK); auto. Qed.
 Lemma app_ns_set T i R W r ns n v : tr_ok T i R W -> kin (ns, lower n) W = true -> ns_set (app T r) ns n v = app T (ns_set r ns n v).
 Proof.
-  intros (_ & _ & S) K. rewrite !ns_set_raw. unfold app at 2. cbn [r_nss set_nss rt_with r_ctxs r_out r_active r_state r_exit_req r_halt_req r_run r_err r_msgs r_clock r_tick r_timestamp r_run_ts r_max_runtime r_max_loop r_slice r_next_id r_defects].
+  intros OK K. pose proof (tk_set _ _ _ _ OK) as S. rewrite !ns_set_raw. unfold app at 2. cbn [r_nss set_nss rt_with r_ctxs r_out r_active r_state r_exit_req r_halt_req r_run r_err r_msgs r_clock r_tick r_timestamp r_run_ts r_max_runtime r_max_loop r_slice r_next_id r_defects].
   rewrite <- S by auto. reflexivity.
 Qed.
 
